@@ -27,6 +27,10 @@ pub struct Direct {
     /// the chain-level (wasm module) admin of the contract under test, i.e. who may migrate it; answered
     /// to `WasmQuery::ContractInfo` about the contract's own address. None: the chain knows no admin.
     pub chain_admin: Option<Addr>,
+    /// other contracts the chain knows: address -> the JSON they answer every smart query with (an obliging
+    /// peer, e.g. a proxy that says `{"can_execute":true}` to whoever asks). Nothing asks unless the contract
+    /// under test does.
+    pub peers: std::collections::BTreeMap<String, Vec<u8>>,
     pub calls_ok: u64,
     pub calls_err: u64,
     pub calls_panic: u64,
@@ -60,6 +64,7 @@ impl Direct {
             nanos: 0,
             contract,
             chain_admin: None,
+            peers: Default::default(),
             calls_ok: 0,
             calls_err: 0,
             calls_panic: 0,
@@ -110,7 +115,15 @@ impl Direct {
         let me = self.contract.clone();
         let admin = self.chain_admin.clone();
         let creator = self.api.addr_make("creator");
+        let peers = self.peers.clone();
         q.update_wasm(move |w| match w {
+            cosmwasm_std::WasmQuery::Smart { contract_addr, .. } if peers.contains_key(contract_addr) => {
+                cosmwasm_std::SystemResult::Ok(cosmwasm_std::ContractResult::Ok(cosmwasm_std::Binary::from(peers[contract_addr].clone())))
+            }
+            cosmwasm_std::WasmQuery::ContractInfo { contract_addr } if peers.contains_key(contract_addr) => {
+                let info = cosmwasm_std::ContractInfoResponse::new(2, creator.clone(), None, false, None);
+                cosmwasm_std::SystemResult::Ok(cosmwasm_std::ContractResult::Ok(cosmwasm_std::to_json_binary(&info).unwrap()))
+            }
             cosmwasm_std::WasmQuery::ContractInfo { contract_addr } if *contract_addr == me.as_str() => {
                 let info = cosmwasm_std::ContractInfoResponse::new(1, creator.clone(), admin.clone(), false, None);
                 cosmwasm_std::SystemResult::Ok(cosmwasm_std::ContractResult::Ok(cosmwasm_std::to_json_binary(&info).unwrap()))
